@@ -235,6 +235,15 @@ func (it *indexedMessageIterator) loadChunk(chunkIndex *ChunkIndex) error {
 	}
 
 	compressedChunkLength := chunkIndex.ChunkLength
+	// the chunk index comes from the input: the record it designates must hold at least an opcode
+	// and a length, and must lie inside the file (which also bounds the buffer allocated for it).
+	if compressedChunkLength < 9 {
+		return fmt.Errorf("%w: chunk length %d is shorter than a record header", ErrBadOffset, compressedChunkLength)
+	}
+	if chunkEnd, overflow := checkedAdd(chunkIndex.ChunkStartOffset, compressedChunkLength); overflow || chunkEnd > uint64(it.fileSize) {
+		return fmt.Errorf("%w: chunk at %d with length %d extends past file end %d",
+			ErrBadOffset, chunkIndex.ChunkStartOffset, compressedChunkLength, it.fileSize)
+	}
 	if uint64(cap(it.recordBuf)) < compressedChunkLength {
 		newCapacity := int(float64(compressedChunkLength) * chunkBufferGrowthMultiple)
 		it.recordBuf = make([]byte, compressedChunkLength, newCapacity)
@@ -263,8 +272,14 @@ func (it *indexedMessageIterator) loadChunk(chunkIndex *ChunkIndex) error {
 	}
 	chunkSlot := &it.chunkSlots[chunkSlotIndex]
 	bufSize := parsedChunk.UncompressedSize
+	if CompressionFormat(parsedChunk.Compression) == CompressionNone && bufSize != uint64(len(parsedChunk.Records)) {
+		return fmt.Errorf("uncompressed chunk declares %d bytes but holds %d", bufSize, len(parsedChunk.Records))
+	}
 	if uint64(cap(chunkSlot.buf)) < bufSize {
-		chunkSlot.buf = make([]byte, bufSize)
+		chunkSlot.buf, err = makeSafe(bufSize)
+		if err != nil {
+			return fmt.Errorf("failed to allocate chunk buffer: %w", err)
+		}
 	} else {
 		chunkSlot.buf = chunkSlot.buf[:bufSize]
 	}
@@ -401,7 +416,10 @@ func readRecord(r io.Reader, buf []byte) (OpCode, []byte, error) {
 	opcode := OpCode(buf[0])
 	recordLen := binary.LittleEndian.Uint64(buf[1:])
 	if uint64(cap(buf)) < recordLen {
-		buf = make([]byte, recordLen)
+		buf, err = makeSafe(recordLen)
+		if err != nil {
+			return 0, nil, fmt.Errorf("failed to allocate %d bytes for record: %w", recordLen, err)
+		}
 	} else {
 		buf = buf[:recordLen]
 	}
